@@ -131,6 +131,35 @@ theorem due_jobs_executed_at_their_time (env : Env) (now : Int) (en : Bool) (ops
   exact (sleepLoop_executes SLEEPFUEL (s.now + d) hi hg hen hm ht hle).elim
     (fun h => Or.inl (exhausted_of_hasFatal h)) Or.inr
 
+/-- On time, part 5 — re-enabling: when a disabled scheduler is switched on, every queued job whose reported run
+time has been reached in the meantime is executed by that very call, at the current instant. -/
+theorem due_jobs_executed_on_enable (env : Env) (now : Int) (en : Bool) (ops : List Op) (i : Nat) (t : Int) :
+    let s := runOps (initSt env now en) ops
+    s.enabled = false → i ∈ s.queue → s.nr i = some t → t ≤ s.now →
+    let s' := (step s (.enable true)).1
+    Exhausted s' ∨ ∃ l, s'.log = l ++ s.log ∧ Ev.exec i s.now t ∈ l := by
+  intro s hdis hm ht hdue s'
+  have hi : Inv s := inv_reachable env now en ops
+  have hT3 := timerFn3_setTimer OPFUEL
+  have hI' : Inv { s with enabled := true } := ⟨hi.q, hi.st, hi.log⟩
+  have hs' : s' = setTimer OPFUEL { s with enabled := true } := by
+    show (step s (.enable true)).1 = _
+    unfold step
+    simp only []
+    rw [if_neg (by rw [hdis]; simp)]
+  rw [hs']
+  have hc := hT3.base.clock _ hI'
+  rcases hT3.base.post _ hI' with hf | ⟨hk, hfr⟩
+  · exact Or.inl (exhausted_of_hasFatal hf)
+  · rcases hT3.keeps _ hI' i t hm ht with hl | ⟨hm', ht'⟩
+    · exact Or.inr hl
+    · exfalso
+      have hen : (setTimer OPFUEL { s with enabled := true }).enabled = true := by rw [hc.enabled]
+      obtain ⟨t', h1, h2⟩ := queued_after_timer (setTimer_inv OPFUEL hI') hk hfr hen i hm'
+      rw [ht'] at h1; cases h1
+      have : (setTimer OPFUEL { s with enabled := true }).now = s.now := hc.now
+      omega
+
 -- non-vacuity (executable check of the model, not a theorem): a history in which a job is executed
 #guard ((runOps (initSt {} 0) [.create 1 none (.once 5) [] [], .sleep 10]).log.any
   fun e => match e with | .exec 1 5 5 => true | _ => false)
